@@ -215,7 +215,7 @@ func checkC05(ctx *Ctx, r *Report, tier string) {
 		ev.evalRoot(ufn)
 		isoZero(r, ev, "marchingCubes")
 	}
-	r.floor("T7", 5)
+	r.floor("T7", 3)
 
 	// T8 / pairing
 	r.check("T8", "mcToTriangles|edge-vertex-from-its-own-corners", kf.pos, kf.pairOK && kf.interpA == 0 && kf.interpB == 1 || kf.pairOK && kf.interpA == 1 && kf.interpB == 0, kf.pairDetail)
@@ -238,7 +238,7 @@ func checkC05(ctx *Ctx, r *Report, tier string) {
 		verifyMCTables(r, ctb, g, "verifCtl", kf)
 		r.expectControl("T1", "verifCtl")
 		r.expectControl("T3", "verifCtl")
-	} else {
+	} else if !r.controlSkipped() {
 		r.undecided("T1", "control-tables", 0, "positive control tables missing")
 	}
 	r.floor("T1", 256)
